@@ -19,6 +19,11 @@ func (x *inv) val(fr *frame, h ir.ExpressionHandle) ([]uint32, error) {
 	if e.err != nil {
 		return nil, e.err
 	}
+	if x.p.EvalUnemittedAtUse && fr.fn.lazy != nil && fr.fn.lazy[h] {
+		if err := x.lazyEval(fr, h, 0); err != nil {
+			return nil, err
+		}
+	}
 	if !fr.done[h] {
 		return nil, &xrt.Malformed{What: fmt.Sprintf("%s: e%d (%T) used before it was emitted", fr.fn.name, h, e.k)}
 	}
@@ -37,6 +42,11 @@ func (x *inv) ptr(fr *frame, h ir.ExpressionHandle) (xptr, error) {
 	if e.err != nil {
 		return xptr{}, e.err
 	}
+	if x.p.EvalUnemittedAtUse && fr.fn.lazy != nil && fr.fn.lazy[h] {
+		if err := x.lazyEval(fr, h, 0); err != nil {
+			return xptr{}, err
+		}
+	}
 	if !fr.done[h] {
 		return xptr{}, &xrt.Malformed{What: fmt.Sprintf("%s: e%d (%T) used before it was emitted", fr.fn.name, h, e.k)}
 	}
@@ -51,6 +61,25 @@ func (x *inv) ptr(fr *frame, h ir.ExpressionHandle) (xptr, error) {
 		return p, &xrt.Unsupported{What: "variable in an address space that is not modelled (or unbound)"}
 	}
 	return p, nil
+}
+
+// lazyEval (re-)evaluates an expression that no Emit covers, and the uncovered expressions it
+// depends on, at the point of use.
+func (x *inv) lazyEval(fr *frame, h ir.ExpressionHandle, depth int) error {
+	if depth > 256 {
+		return &xrt.Malformed{What: "expression nesting too deep"}
+	}
+	for _, op := range operandsOf(fr.fn.ex[h].k) {
+		if int(op) < len(fr.fn.lazy) && fr.fn.lazy[op] {
+			if err := x.lazyEval(fr, op, depth+1); err != nil {
+				return err
+			}
+		}
+	}
+	if err := x.step(); err != nil {
+		return err
+	}
+	return x.eval(fr, h)
 }
 
 // evalTree evaluates h and, first, everything it depends on, regardless of Emit statements. Used for
